@@ -22,7 +22,11 @@ RULE = (
     "build(upload=True)+transfer, direct add under the id an honest caller computes (optionally hard-linked), "
     "store->store transfer of a drawn id subset (shallow/expanded, hardlink), index build->md5->save of a "
     "wrapped tree (one .dir object per directory level), migrate (prepare+migrate: D->L, D->G, L->X, G->X), "
-    "gc with a drawn used subset. Oracle after EVERY rule, on every store, from os.walk + hashlib: each "
+    "gc with a drawn used subset, and crash_leftover: the harness plants what an add killed inside the reflink "
+    "probe leaves in a local-class store (empty or partially written 0o644 file under the final path of a pool "
+    "file/directory object not yet in the store); store objects are long-lived across the history. A planted "
+    "leftover is tolerated only while untouched, unprotected and not vouched for by the state - later rules "
+    "may remove or correctly replace it, never keep it 0o444 / state-recorded. Oracle after EVERY rule, on every store, from os.walk + hashlib: each "
     "object's name is the store-algorithm digest of its bytes (+'.dir' iff it is a directory object, whose "
     "bytes must be a canonical listing), no stray file, no listing filed without the '.dir' suffix, every "
     "object of a local-class store has mode exactly 0o444. Non-trivial = a history in which some store was "
@@ -34,6 +38,8 @@ ASSUMPTIONS = [
     "run only between stores of the same algorithm",
     "a migrated directory object keeps its bytes (child ids stay those of the source algorithm); only its own "
     "name is re-derived - for the sha256 target the listing is therefore audited as 'parses as a listing'",
+    "crash leftovers are planted only in local-class stores (the generic class has no integrity-checking "
+    "existence query and no protection) and a store with an outstanding leftover is not used as a migration source",
     "files named like dvc-objects temp files (.<token>.tmp) are counted, not judged",
     "hashlib, the reference text sniffing rule and the hand-written listing serialiser are the trusted base",
 ]
@@ -73,6 +79,8 @@ class C01Machine(TraceMachine):
         self.labels = set()
         self.saw_dir = False
         self.temps = 0
+        self.leftovers = [{} for _ in STORES]  # per store: {oid: planted bytes} still outstanding
+        self.listings = []      # canonical listing bytes of the pool trees (md5 / md5-dos2unix child ids)
 
     def _make_stores(self):
         self.odbs = []
@@ -103,6 +111,11 @@ class C01Machine(TraceMachine):
                 for rel in sorted(flat):
                     self.files.append((os.path.join(p, *rel.split("/")), flat[rel]))
                 self.labels.update("pool:" + x for x in gen.tree_traits(it["t"]))
+                # the md5 and md5-dos2unix listings differ only when a file is CRLF text
+                for algo in ("md5", "md5-dos2unix"):
+                    lb = ref.ref_tree_bytes(ref.tree_manifest(flat, algo), "md5")
+                    if lb not in self.listings:
+                        self.listings.append(lb)
             else:
                 data = gen.content_bytes(it["f"])
                 gen.write_file(p, data)
@@ -192,7 +205,9 @@ class C01Machine(TraceMachine):
         from dvc_data.hashfile.db.migrate import migrate, prepare
 
         s, t = ROUTES[route]
-        if not self.ids[s]:
+        if not self.ids[s] or self.leftovers[s]:
+            # precondition: the source of a migration holds no outstanding crash leftover (migrate hard-links
+            # every file of the source, so protecting the new object would also chmod the leftover)
             return
         n = migrate(prepare(self.odbs[s], self.odbs[t]))
         self.labels.add("migrate:" + route)
@@ -215,6 +230,35 @@ class C01Machine(TraceMachine):
         if n:
             self.effective.add("gc")
 
+    @rule(store=st.sampled_from([0, 0, 2, 3]), which=st.integers(0, 40),
+          cut=st.one_of(st.just(0), st.just(0), st.integers(1, 300)))
+    @traced
+    def crash_leftover(self, store, which, cut):
+        """Plant what an add killed inside the reflink probe (open(final, O_CREAT|O_TRUNC)) leaves behind: an
+        empty - or partially written - unprotected file under the final path of a pool object that the store
+        does not hold yet.  Local-class stores only."""
+        cands = list(self.files)
+        if store != 3:
+            cands += [(None, b) for b in self.listings]
+        if not cands:
+            return
+        algo = STORES[store][2]
+        _p, data = cands[which % len(cands)]
+        isdir = which % len(cands) >= len(self.files)
+        oid = ref.ref_hash(data, algo) + (".dir" if isdir else "")
+        planted = data[: cut % len(data)] if data else b""
+        if planted == data or oid in self.ids[store] or oid in self.leftovers[store]:
+            return
+        path = self.odbs[store].oid_to_path(oid)
+        os.makedirs(os.path.dirname(path), exist_ok=True)
+        fd = os.open(path, os.O_WRONLY | os.O_CREAT | os.O_TRUNC, 0o666)
+        try:
+            os.write(fd, planted)
+        finally:
+            os.close(fd)
+        self.leftovers[store][oid] = planted
+        self.labels.add("crash_leftover" + ("-partial" if planted else "-empty") + ("-dir" if isdir else ""))
+
     # ---- oracle: audit every store after every step -----------------------------------------
     def check_state(self):
         for i, (label, kind, algo) in enumerate(STORES):
@@ -223,19 +267,56 @@ class C01Machine(TraceMachine):
                 problems, contents = _audit_foreign(path, algo)
             else:
                 problems, contents = ref.audit_local_store(path, algo, require_protected=(kind == "local") or None)
+            problems = self._judge_leftovers(i, label, contents, problems)
             for what, oid, why in problems:
                 self.violate(f"{what}:{_origin(self.trace)}", f"store {label} ({kind}, {algo}): {why}")
             for oid, data in contents.items():
                 if oid.endswith(".dir"):
                     self.saw_dir = True
+                elif oid in self.leftovers[i]:
+                    continue
                 elif data not in self.file_bytes and _is_listing(data):
                     self.violate(f"dir-suffix-lost:{_origin(self.trace)}",
                                  f"store {label}: object {oid} holds a directory listing but has no '.dir' suffix")
-            ids = set(contents)
+            ids = set(contents) - set(self.leftovers[i])
             if ids != self.ids[i]:
                 self.changes[i] += 1
                 self.ids[i] = ids
             self.temps = max(self.temps, len(ref.walk_store(path)[1]))
+
+    def _judge_leftovers(self, i, label, contents, problems):
+        """A planted leftover is tolerated only while it is untouched, unprotected and not vouched for by the
+        state; a rule may heal it (remove it, or replace it by the right bytes) but never bless it."""
+        from dvc_objects.fs.local import LocalFileSystem
+
+        algo = STORES[i][2]
+        origin = _origin(self.trace)
+        tolerated = set()
+        for oid, planted in list(self.leftovers[i].items()):
+            raw = oid[:-4] if oid.endswith(".dir") else oid
+            if oid not in contents:
+                del self.leftovers[i][oid]
+                self.labels.add("leftover-healed-by-removal")
+                continue
+            if ref.ref_hash(contents[oid], algo) == raw:
+                del self.leftovers[i][oid]
+                self.labels.add("leftover-healed-by-replacement")
+                continue
+            if contents[oid] != planted:
+                del self.leftovers[i][oid]
+                continue  # rewritten with other mismatching bytes: judged by the ordinary audit
+            path = self.odbs[i].oid_to_path(oid)
+            if stat.S_IMODE(os.lstat(path).st_mode) == 0o444:
+                self.violate(f"leftover-protected:{origin}",
+                             f"store {label}: the leftover of an interrupted add under {oid} "
+                             f"({len(planted)} bytes, not the object) was kept and protected (0o444)")
+            if self.state is not None:
+                _m, h = self.state.get(path, LocalFileSystem())
+                if h is not None and h.value == oid:
+                    self.violate(f"leftover-state-vouched:{origin}",
+                                 f"store {label}: the state records the leftover under {oid} as a valid object")
+            tolerated.add(oid)
+        return [p for p in problems if not (p[1] in tolerated and p[0] in ("mismatch", "mode"))]
 
     def on_summary(self):
         nontrivial = bool(max(self.changes) >= 2 and self.saw_dir and self.effective)
